@@ -27,6 +27,7 @@ struct GenCfg {
   bool offsetsOutside = false;
   bool fracWeights = false;
   int maxLevels = 8;
+  int maxMagPow = 22;  // coordinates stay within 2^maxMagPow when scaled
 };
 
 // Swarm configuration: each run first decides which features exist at all.
@@ -338,7 +339,7 @@ Built genCircuit(Rng &r, const GenCfg &cfg) {
     for (auto &net : s.nets)
       for (size_t p = 0; p < net.cells.size(); ++p) M = std::max<long long>({M, std::llabs(net.xo[p]), std::llabs(net.yo[p])});
     int kmax = 0;
-    while (kmax < 22 && (M << (kmax + 1)) <= (1LL << 22) && (maxDim << (2 * (kmax + 1))) < (1LL << 31)) ++kmax;
+    while (kmax < 22 && (M << (kmax + 1)) <= (1LL << cfg.maxMagPow) && (maxDim << (2 * (kmax + 1))) < (1LL << 31)) ++kmax;
     int k = kmax > 0 ? (int)r.range(std::max(0, kmax - 3), kmax) : 0;
     long long u = 1LL << k;
     for (auto &rw : s.rows) {
@@ -863,7 +864,12 @@ Plan genRelegalize(const std::string &profile, uint64_t seed, int tier) {
   GenCfg cfg = swarm(rc, tier);
   cfg.multiRow = false;
   cfg.macros = false;
-  cfg.bigScale = rc.chance(0.15);
+  cfg.bigScale = rc.chance(0.4);
+  cfg.maxMagPow = 19;  // the property is stated for |v| < 2^20 (perturbations included)
+  if (cfg.bigScale) {
+    cfg.splitRows = rc.chance(0.8);
+    cfg.obstructions = rc.chance(0.8);
+  }
   // turned cells are allowed as long as their placed height is one row
   Built b = genCircuit(rc, cfg);
   p.circuit = b.spec;
@@ -906,6 +912,15 @@ Plan genBadCalls(const std::string &profile, uint64_t seed, int tier) {
     if (kind == 0) variant = q.chance(0.7) ? q.range(-16, 32) : (long long)(int)(q.next() & 0xffffffffu);
     if (kind == 1) variant = (q.chance(0.7) ? q.range(-16, 32) : (long long)(int)(q.next() & 0x7fffffffu) / 4) * 3 + (long long)q.below(3);
     op.args = {kind, variant};
+    if (kind == 2) {
+      // a valid, non-default parameter context around the out-of-range field(s)
+      ParamSpec ctx = genParams(q, 0, false, true);
+      ParamSpec c2 = genParams(q, 2, q.chance(0.3), true);
+      for (auto &kv : c2.ov) ctx.ov.push_back(kv);
+      for (auto &kv : ctx.ov)
+        if (kv.first == "g.maxNbSteps") kv.second = std::min(kv.second, 3.0);
+      op.params = ctx;
+    }
     return op;
   };
   int n = (int)ro.range(2, 8);
